@@ -86,7 +86,7 @@ Proof. unfold is_order. vm_compute. apply Permutation_refl. Qed.
 
 (* the theorem applies: in the order [2;0;1] the model returns the successor *)
 Example ex_successor :
-  exists s', apply_op_o ex_dom ex_eps ex_ga (Some ex_objs) false false [2; 0; 1] [0] ex_state = Ok s' /\
+  exists s', apply_op ex_dom ex_eps ex_ga (Some ex_objs) false false [2; 0; 1] [0] ex_state = Ok s' /\
              state_eq s' (successor ex_eps (d_types ex_dom) ex_objs (spec_action ex_act ex_effs) ex_args ex_state).
 Proof.
   eapply (successor_gen ex_dom ex_eps ex_act ex_effs ex_args ex_ga ex_objs ex_state).
@@ -104,7 +104,7 @@ Qed.
 (* and what it returns: p o0, p o1 deleted; q deleted and added; r o0 o1, p c0 added; h = 3 + 2; f o0 = 2 + 3 (old h);
    f o1 = 0.5 - 1; f c0 untouched *)
 Example ex_result :
-  match apply_op_o ex_dom ex_eps ex_ga (Some ex_objs) false false [2; 0; 1] [0] ex_state with
+  match apply_op ex_dom ex_eps ex_ga (Some ex_objs) false false [2; 0; 1] [0] ex_state with
   | Ok s' =>
       map (fun x => atom_in x (facts s')) [("p", ["o0"]); ("p", ["o1"]); ("q", []); ("r", ["o0"; "o1"]); ("p", ["c0"]); ("r", ["o1"; "o0"])]
       = [false; false; true; true; true; false] /\
@@ -118,7 +118,7 @@ Proof. vm_compute. split; reflexivity. Qed.
 Definition ex_state_bad : state := {| facts := [("q", [])]; fluents := fluents ex_state |}.
 Example ex_refused :
   is_applicable ex_dom ex_eps (Some ex_objs) ex_ga ex_state_bad = Ok false /\
-  apply_op_o ex_dom ex_eps ex_ga (Some ex_objs) false false [0; 1; 2] [0] ex_state_bad = Err EValue.
+  apply_op ex_dom ex_eps ex_ga (Some ex_objs) false false [0; 1; 2] [0] ex_state_bad = Err EValue.
 Proof. vm_compute. split; reflexivity. Qed.
 
 (* ---------- a 'forall' inside the condition of a 'when' ranges over the problem objects (repair D40) ---------- *)
@@ -138,8 +138,8 @@ Definition d40_state2 : state := {| facts := [("p", ["o0"]); ("p", ["o1"])]; flu
 (* (p o1) is false: the effect does not fire; with (p o1) it does *)
 Example when_forall_example :
   denote_effs d40_act = Some d40_effs /\ forallb eff_when_qfree d40_effs = false /\
-  apply_op_o d40_dom ex_eps d40_ga (Some d40_objs) false false [0; 1] [] d40_state = Ok d40_state /\
-  (exists s', apply_op_o d40_dom ex_eps d40_ga (Some d40_objs) false false [1; 0] [] d40_state2 = Ok s' /\
+  apply_op d40_dom ex_eps d40_ga (Some d40_objs) false false [0; 1] [] d40_state = Ok d40_state /\
+  (exists s', apply_op d40_dom ex_eps d40_ga (Some d40_objs) false false [1; 0] [] d40_state2 = Ok s' /\
               atom_in ("q", []) (facts s') = true).
 Proof.
   split; [vm_compute; reflexivity|]. split; [vm_compute; reflexivity|]. split; [vm_compute; reflexivity|].
